@@ -1,0 +1,87 @@
+//go:build verif
+
+// Contracts for package wkt, read by the VC generator in /verif (govc). Comments only.
+// Only memory safety and termination of the parsers are stated here (property C05); the
+// text round trip (C04) is not decidable by this technique.
+
+package wkt
+
+// ---------------------------------------------------------------- assumed contracts on the standard library
+
+//@ extern strings.Index(s, sep)
+//@   pure
+//@   ensures result == -1 || (0 <= result && result + len(sep) <= len(s))
+//@ extern strings.Count(s, sub)
+//@   pure
+//@   ensures 0 <= result && result <= len(s) + 1
+//@ extern strings.Contains(s, sub)
+//@   pure
+//@   ensures result ==> len(s) >= len(sub)
+//@ extern strings.EqualFold(s, t)
+//@   pure
+//@ extern bytes.HasPrefix(s, prefix)
+//@   pure
+//@   ensures result ==> len(s) >= len(prefix) && (forall k :: 0 <= k && k < len(prefix) ==> s[k] == prefix[k])
+//@ extern strconv.ParseFloat(s, bitSize)
+//@   pure
+
+// matches are in range, have one group, and are ordered and non-overlapping
+//@ extern regexp.(*Regexp).FindAllStringSubmatchIndex(re, s, n)
+//@   modifies nothing
+//@   ensures forall i :: 0 <= i && i < len(result) ==> len(result[i]) == 4 && 0 <= result[i][0] && result[i][0] <= result[i][2] && result[i][2] <= result[i][3] && result[i][3] <= result[i][1] && result[i][1] <= len(s)
+//@   ensures forall i, j :: 0 <= i && i < j && j < len(result) ==> result[i][1] <= result[j][0]
+
+// ---------------------------------------------------------------- helpers
+
+//@ func trimSpace(s)
+//@   pure
+//@   ensures len(result) != 1 && len(result) <= len(s)
+
+//@ func trimSpaceBrackets(s) (r, err)
+//@   pure
+//@   ensures len(r) <= len(s)
+
+//@ func upperPrefix(s)
+//@   modifies nothing
+//@   ensures len(result) == 20
+//@   ensures forall k :: 0 <= k && k < 20 && k >= len(s) ==> result[k] == 0
+//@   loop 1: invariant 0 <= i && i <= 20 && len(prefix) == 20 && fresh(prefix) && prefix != nil
+//@   loop 1: invariant forall k :: i <= k && k < 20 ==> prefix[k] == 0
+
+//@ func splitOnComma(s, yield)
+//@   requires yield != nil
+
+//@ func splitByRegexpYield(s, re, set, yield)
+//@   requires set != nil && yield != nil && re != nil
+//@   opt funcsPreserve=S:int,S:__int
+//@   loop 1: invariant 0 <= start && start <= len(s) && -1 <= rangeindex && rangeindex < len(indexes)
+//@   loop 1: invariant forall j :: rangeindex < j && j < len(indexes) ==> start <= indexes[j][0]
+//@   loop 1: invariant forall i :: 0 <= i && i < len(indexes) ==> len(indexes[i]) == 4 && 0 <= indexes[i][0] && indexes[i][0] <= indexes[i][2] && indexes[i][2] <= indexes[i][3] && indexes[i][3] <= indexes[i][1] && indexes[i][1] <= len(s)
+//@   loop 1: invariant forall i, j :: 0 <= i && i < j && j < len(indexes) ==> indexes[i][1] <= indexes[j][0]
+
+// ---------------------------------------------------------------- per-kind parsers: the keyword has been recognised
+
+//@ func unmarshalPoint(s)
+//@   requires len(s) >= 5
+//@ func unmarshalMultiPoint(s)
+//@   requires len(s) >= 10
+//@ func unmarshalLineString(s)
+//@   requires len(s) >= 10
+//@ func unmarshalMultiLineString(s)
+//@   requires len(s) >= 15
+//@ func unmarshalPolygon(s)
+//@   requires len(s) >= 7
+//@ func unmarshalMultiPolygon(s)
+//@   requires len(s) >= 12
+//@ func unmarshalCollection(s)
+//@   requires len(s) >= 18
+
+// closures handed to splitByRegexpYield as `set`: called with len(matches)+1
+//@ func unmarshalMultiLineString$1(i)
+//@   requires 0 <= i && i <= 4611686018427387904
+//@ func unmarshalPolygon$1(i)
+//@   requires 0 <= i && i <= 4611686018427387904
+//@ func unmarshalMultiPolygon$1(i)
+//@   requires 0 <= i && i <= 4611686018427387904
+//@ func unmarshalMultiPolygon$2$1(i)
+//@   requires 0 <= i && i <= 4611686018427387904
